@@ -26,6 +26,20 @@ def log(*a):
     print(*a, flush=True)
 
 
+def load_checks():
+    out = {}
+    for f in sorted(glob.glob(os.path.join(VERIF, "checks.d", "*.json"))):
+        out.update(load_json(f))
+    return out
+
+
+def load_known():
+    k = load_json(os.path.join(VERIF, "known_findings.json"), {"known": [], "fixed": []})
+    for f in sorted(glob.glob(os.path.join(VERIF, "known_findings.d", "*.json"))):
+        k["known"].extend(load_json(f).get("known", []))
+    return k
+
+
 def load_json(p, default=None):
     try:
         with open(p) as f:
@@ -189,7 +203,7 @@ def known_match(known, prop, key):
 
 def warm():
     """Compile every unit once so that later checks hit the build cache."""
-    checks = load_json(os.path.join(VERIF, "checks.json"))
+    checks = load_checks()
     work = os.path.join(VERIF, ".work", "warm-%d" % os.getpid())
     os.makedirs(work, exist_ok=True)
     try:
@@ -220,7 +234,7 @@ def main():
         log(__doc__)
         sys.exit(2)
     prop = sys.argv[1]
-    checks = load_json(os.path.join(VERIF, "checks.json"))
+    checks = load_checks()
     if prop not in checks:
         log("unknown property", prop)
         sys.exit(2)
@@ -266,7 +280,7 @@ def do_replay(work, prop, spec, path, seed):
 
 def do_check(work, prop, spec, tier, seed, only):
     t0 = time.time()
-    known = load_json(os.path.join(VERIF, "known_findings.json"), {"known": [], "fixed": []})
+    known = load_known()
     parts, herrs, crashlog = [], [], ""
     viols = []  # (unit, part, violation)
     build_s = 0.0
